@@ -265,11 +265,18 @@ pub fn par_map<T: Send + 'static>(n: usize, f: impl Fn(usize) -> T + Send + Sync
     let mut hs = Vec::new();
     for i in 0..n {
         let f = f.clone();
-        hs.push(std::thread::Builder::new().stack_size(16 << 20).spawn(move || f(i)).unwrap());
+        hs.push(std::thread::Builder::new().stack_size(16 << 20).spawn(move || crate::report::guarded(|| f(i))).unwrap());
     }
-    hs.into_iter()
-        .map(|h| h.join().expect("worker thread panicked outside guarded section"))
-        .collect()
+    let mut out = Vec::new();
+    for h in hs {
+        match h.join() {
+            Ok(Ok(v)) => out.push(v),
+            // a panic that escaped every guarded section of a worker: re-raise it here with its original message
+            Ok(Err(msg)) => panic!("worker: {}", msg),
+            Err(_) => panic!("worker thread died"),
+        }
+    }
+    out
 }
 
 pub fn n_threads() -> usize {
